@@ -895,8 +895,9 @@ func (c *ChannelWriter) alterIndex(ctx context.Context, msgBase *commonpb.MsgBas
 		return nil
 	}
 	UpdateMsgBase(alterIndexMsg.Base, msgBase)
-	alterIndexMsg.DbName, alterIndexMsg.CollectionName = c.mapDBAndCollectionName(
-		alterIndexMsg.GetDbName(), alterIndexMsg.GetCollectionName())
+	databaseName := alterIndexMsg.GetDbName()
+	collectionName := alterIndexMsg.GetCollectionName()
+	alterIndexMsg.DbName, alterIndexMsg.CollectionName = c.mapDBAndCollectionName(databaseName, collectionName)
 	err := c.dataHandler.AlterIndex(ctx, &api.AlterIndexParam{
 		ReplicateParam: api.ReplicateParam{
 			Database: alterIndexMsg.DbName,
@@ -905,7 +906,12 @@ func (c *ChannelWriter) alterIndex(ctx context.Context, msgBase *commonpb.MsgBas
 	})
 	if err != nil {
 		log.Warn("failed to alter index", zap.Any("msg", alterIndexMsg), zap.Error(err))
-		return err
+		skip, _ := c.WaitObjReady(ctx, databaseName, collectionName, "", alterIndexMsg.EndTs())
+		if !skip {
+			return err
+		}
+		log.Info("collection has been dropped", zap.String("database", databaseName),
+			zap.String("collection", collectionName), zap.String("msg", util.Base64Msg(msg)))
 	}
 	return nil
 }
